@@ -10,6 +10,8 @@
 #include "rkcommon/utility/OwnedArray.h"
 #include "rkcommon/utility/DataView.h"
 
+#include <sys/mman.h>
+
 using namespace rkcommon::utility;
 using pbt::Op;
 
@@ -586,8 +588,53 @@ static void dataview_case(const std::tuple<int, int, std::vector<uint8_t>> &c, p
   ctx.nt(stride != sizeof(T) && count >= 2);
 }
 
+// thorough tier only: an owning array of 4 GiB + 4 KiB bytes built from a (sparse) source is a complete copy.
+// Needs ~4.5 GiB of RAM for a few seconds; skipped (and labelled) if the mapping or the allocation is refused.
+static void fixedarray_4gib(const int &sel, pbt::Ctx &ctx)
+{
+  static int runs = 0;  // 4.5 GiB and ~5 s per run: twice per process is enough
+  if (runs++ >= 2) {
+    ctx.label("4gib-case-already-run");
+    return;
+  }
+  const size_t n = (1ull << 32) + 4096 + (size_t)(sel % 3);
+  void *m = mmap(nullptr, n, PROT_READ | PROT_WRITE, MAP_PRIVATE | MAP_ANONYMOUS | MAP_NORESERVE, -1, 0);
+  if (m == MAP_FAILED) {
+    ctx.label("4gib-source-mapping-refused");
+    return;
+  }
+  uint8_t *src = (uint8_t *)m;
+  const size_t marks[] = {0, 1, (1ull << 31) - 1, 1ull << 31, (1ull << 32) - 1, 1ull << 32, (1ull << 32) + 1, n - 1};
+  for (size_t i = 0; i < sizeof marks / sizeof marks[0]; ++i)
+    src[marks[i]] = (uint8_t)(0x11 * (i + 1));
+  try {
+    FixedArray<uint8_t> fa(src, n);
+    PBT_ASSERT_MSG(fa.size() == n, "FixedArray of " << n << " bytes reports size " << fa.size());
+    for (size_t i = 0; i < sizeof marks / sizeof marks[0]; ++i)
+      PBT_ASSERT_MSG(fa[marks[i]] == (uint8_t)(0x11 * (i + 1)), "FixedArray of " << n << " bytes: element " << marks[i] << " was not copied from the source");
+    PBT_ASSERT(fa[12345] == 0 && fa[(1ull << 32) + 100] == 0 && fa.at(n - 1) == (uint8_t)(0x11 * 8));
+    bool threw = false;
+    try {
+      (void)fa.at(n);
+    } catch (const std::runtime_error &) {
+      threw = true;
+    }
+    PBT_ASSERT(threw);
+    ctx.nt(true);
+    ctx.label("fixedarray>=4GiB");
+  } catch (const std::bad_alloc &) {
+    ctx.label("4gib-allocation-refused");
+  }
+  munmap(m, n);
+}
+
 static void register_properties()
 {
+  {
+    const char *tier = getenv("PBT_TIER");
+    if (tier && std::string(tier) == "thorough")
+      pbt::property<int>("fixedarray_4gib", 1, pbt::range<int>(0, 2), fixedarray_4gib);
+  }
   auto ops = pbt::vec(pbt::genOpWeighted({{3, SRC_NEW}, {1, SRC_DESTROY}, {2, SRC_OVERWRITE}, {5, W_CTOR_FROM_SRC}, {1, W_CTOR_DEFAULT},
                                              {3, W_ASSIGN_FROM_SRC}, {1, W_RESET}, {2, W_RESET_PTR}, {4, OA_RESIZE}, {5, W_COPY_CTOR},
                                              {3, W_COPY_ASSIGN}, {3, W_DESTROY}, {4, FV_MAKE}, {2, FA_SIZED}},
